@@ -106,7 +106,7 @@ claim("C18",
 claim("C07",
       "Proof that every file or directory the archive extractor creates was first checked to lie under the destination "
       "directory plus separator (ghost-tracked prefix test on exactly that name), and that nothing else in rain calls the "
-      "extractor's writer; the storage opens exactly Join(root, Clean(name)) (ghost-tracked); removing a torrent's data deletes Join(DataDir, first component of the cleaned file path), never a path built from the raw name and never "", "." or ".." (ghost-tracked). Partial: semantics of path/filepath and strings are assumed; metainfo path cleaning is covered "
+      "extractor's writer; the storage opens exactly Join(root, Clean(name)) (ghost-tracked); removing a torrent's data deletes Join(DataDir, first component of the cleaned file path), never a path built from the raw name and never the empty string, a single dot or two dots (ghost-tracked). Partial: semantics of path/filepath and strings are assumed; metainfo path cleaning is covered "
       "only as far as listed in the evidence.",
       "DESIGN.md §4 C07")
 
